@@ -25,7 +25,7 @@ CHECKS = [
          text='Proof of the length bounds (<= max_length; short only as ghost-adjacent remainder in non-strict mode) for all streams/parameters, and equality of the constructor accept region with the spec region.',
          note=TOK_NOTE),
     dict(id='C03', engine='E3-tokenizer', level='proof', design_ref='DESIGN.md 3.3.4, 4.3',
-         technique='static analysis: abstract interpretation with a ghost silence-run counter and inferred inductive invariants',
+         technique='static analysis: abstract interpretation with a ghost silence-run counter and inferred inductive invariants; no decision reads a construction-time copy of a public bound',
          text='Proof of the silence-run bound (ghost counter continuing across cuts), has-valid, starts-valid and ends-valid (drop mode) obligations for all streams/parameters/modes.',
          note=TOK_NOTE),
     dict(id='C04', engine='E3-tokenizer', level='proof', design_ref='DESIGN.md 3.3.5, 4.4',
@@ -38,7 +38,7 @@ STRUCT_NOTE = ("Decides structural necessary conditions from the current source 
                "Trusted: the analyser's path/term evaluator (sa/symex.py) and Python/library semantics. Nothing of auditok is imported or executed.")
 CHECKS += [
     dict(id='C05', engine='E4-provenance', level='other', design_ref='DESIGN.md 3.4, 4.5',
-         technique='static analysis: path-sensitive provenance terms of split() and AudioRegion construction, audio-parameter role rule over all call sites',
+         technique='static analysis: path-sensitive provenance terms of split() and AudioRegion construction, audio-parameter role rule over all call sites; an early empty answer of split() decided by taking an input that holds an event through the path conditions',
          text='Decides the wiring of split() on every returning path (data = join of token frames, start = start index x effective window, parameters from the tokenized source, lazy generator, argument roles). Byte equality is the composition C01 o C10 (argued).',
          note=STRUCT_NOTE),
     dict(id='C06', engine='E4-provenance', level='other', design_ref='DESIGN.md 4.6, B.2',
@@ -46,7 +46,7 @@ CHECKS += [
          text='Decides rounding direction and tolerance sign at the conversion sites, the window source, and that split() raises ValueError exactly for the documented guards. Float numerics are not decided.',
          note=STRUCT_NOTE),
     dict(id='C08', engine='E3-tokenizer + E4', level='other', design_ref='DESIGN.md 4.8',
-         technique='static analysis: abstract interpretation events (one read per iteration, same-iteration hand-over, single end-of-stream, latency bound as entailment) plus structural laziness rules on tokenize()/split() and a one-inner-read-per-call rule over the reader wrappers under split()',
+         technique='static analysis: abstract interpretation events (one read per iteration, same-iteration hand-over, single end-of-stream, latency bound as entailment) plus structural laziness rules on tokenize()/split() and a one-inner-read-per-call rule over the reader wrappers under split(); no memoised constructor of a stateful class (two live generators never share one automaton)',
          text='Proves one read per iteration, hand-over in the deciding iteration, the latency bound max(K,0)+1 and single end-of-stream read for all states; decides that tokenize modes are thin wrappers and split() is lazy.',
          note=TOK_NOTE),
     dict(id='C10', engine='E5-nullness + E4', level='other', design_ref='DESIGN.md 3.5, 4.10',
@@ -54,7 +54,7 @@ CHECKS += [
          text='Decides that no read() result is dereferenced unguarded in the reader stack, the framing formulas (int(block_dur*rate), hop bytes, min(budget, size), round(max_read*rate)), wrapper nesting and rejections. Concatenation equality is not computed.',
          note=STRUCT_NOTE),
     dict(id='C20', engine='E3-tokenizer + E6-effects', level='other', design_ref='DESIGN.md 4.20',
-         technique='static analysis: taint of per-run tokenizer state from an arbitrary previous state in the abstract interpreter; effect analysis (purity of validators, no module-level mutable state, fresh objects per split, close->rewind)',
+         technique='static analysis: taint of per-run tokenizer state from an arbitrary previous state in the abstract interpreter; effect analysis (purity of validators, no module-level mutable state, fresh objects per split, no memoised constructor of a stateful class, close->rewind)',
          text='Proves that no decision or delivered value of the tokenizer reads state left by an earlier run (all C01-C04 obligations hold from an arbitrary start), and decides purity / freshness / rewind facts structurally.',
          note=TOK_NOTE),
  ]
@@ -68,7 +68,7 @@ CHECKS += [
          text='Decides that every short alias is read only as fallback of its long name, that split() normalises what it hands down, the container dispatch (stdin/bytes/file x raw/wav x lazy/eager) and the max_read limiter formulas. Equality of region lists across containers is not computed.',
          note=STRUCT_NOTE),
     dict(id='C11', engine='E4-provenance', level='other', design_ref='DESIGN.md 4.11',
-         technique='static analysis: sibling agreement of all read() implementations resolved through the MRO (open-check first, never empty bytes, whole-sample request); buffer source decided operation by operation as Hoare triples over its extracted paths (helpers, property getters/setters inlined), discharged by evaluating path conditions, results and field updates as formulas on finite grids (field stores forwarded to later loads on a path; rewind on open and closed sources); open/close typestate of every source with super() and hooks followed; buffered-open rule; role rule',
+         technique='static analysis: sibling agreement of all read() implementations resolved through the MRO (open-check first, never empty bytes, whole-sample request); buffer source decided operation by operation as Hoare triples over its extracted paths (helpers, property getters/setters inlined), discharged by evaluating path conditions, results and field updates as formulas on finite grids (field stores forwarded to later loads on a path; rewind on open and closed sources); open/close typestate of every source with super() and hooks followed; buffered-open rule; role rule; every field read() writes is re-initialised by open / close / rewind',
          text='Decides per-operation facts for all 5 concrete sources (open test first -> AudioIOError, None-or-non-empty results, size*width*channels requests, cursor arithmetic, position setter/guards, rewind/close). History equivalence as a whole is argued from these facts.',
          note=STRUCT_NOTE),
     dict(id='C16', engine='E4-provenance', level='other', design_ref='DESIGN.md 4.16',
